@@ -191,14 +191,19 @@ func instrDominatesBlock(in ssa.Instruction, b *ssa.BasicBlock) bool {
 }
 
 func c16(c *Ctx) {
-	r := "C16/bounds"
-	scope := func(v ssa.Value) bool { return isByteSliceLike(v.Type()) }
 	if os.Getenv("C16_DISCOVER") != "" {
-		c16Discover(c, scope)
+		c16Discover(c, func(v ssa.Value) bool { return isByteSliceLike(v.Type()) })
 		return
 	}
+	c16Run(c, "C16", c16Decoders, true)
+}
+
+// c16Run decides the bounds obligations of the given decoders (shared by C16 and, for the tx-record decoders, C09).
+func c16Run(c *Ctx, pfx string, decoders []string, full bool) {
+	r := pfx + "/bounds"
+	scope := func(v ssa.Value) bool { return isByteSliceLike(v.Type()) }
 	ndec, nobl := 0, 0
-	for _, name := range c16Decoders {
+	for _, name := range decoders {
 		f := c.mustFn(r, name)
 		if f == nil {
 			continue
@@ -216,7 +221,7 @@ func c16(c *Ctx) {
 				perKind[o.what]++
 				construct := fmt.Sprintf("%s:%s#%d", fnName(g), o.what, perKind[o.what])
 				if o.what == "explicit panic" {
-					c.fail("C16/no-panic", construct, c.pos(o.in.Pos()), "explicit panic in a decoder of untrusted input")
+					c.fail(pfx+"/no-panic", construct, c.pos(o.in.Pos()), "explicit panic in a decoder of untrusted input")
 					continue
 				}
 				ok, how := p.proveObl(o)
@@ -230,7 +235,7 @@ func c16(c *Ctx) {
 	}
 	// contracts of implementations
 	for name, ct := range c16ContractImpls {
-		f := c.mustFn("C16/contract", name)
+		f := c.mustFn(pfx+"/contract", name)
 		if f == nil {
 			continue
 		}
@@ -247,18 +252,21 @@ func c16(c *Ctx) {
 			l := p.linOf(rv).add(p.lenOf(f.Params[ct.arg]), -1)
 			facts := p.factsAt(in)
 			okp := p.prove(l, facts) && p.linNonnegOrProven(p.linOf(rv), facts)
-			c.check(okp, "C16/contract", fmt.Sprintf("%s:consumed<=len(input)#%d", name, n), c.pos(in.Pos()), "0 <= consumed <= len(input) on success: "+l.String()+" <= 0",
+			c.check(okp, pfx+"/contract", fmt.Sprintf("%s:consumed<=len(input)#%d", name, n), c.pos(in.Pos()), "0 <= consumed <= len(input) on success: "+l.String()+" <= 0",
 				"a decoder reports more bytes consumed than its input holds (callers advance their cursor by this amount): need "+l.String()+" <= 0")
 		})
 		if n == 0 {
-			c.undecided("C16/contract", name, "no successful return found")
+			c.undecided(pfx+"/contract", name, "no successful return found")
 		}
 	}
-	c16Panics(c)
-	c16VersionGate(c)
+	if full {
+		c16Panics(c)
+		c16RecvLoops(c, pfx)
+	}
+	c16VersionGate(c, pfx)
 	c.count("decoder_roots", ndec)
 	c.count("bounds_obligations", nobl)
-	if ndec < len(c16Decoders) {
+	if ndec < len(decoders) {
 		c.Notes = append(c.Notes, "some decoder roots did not resolve")
 	}
 }
@@ -372,8 +380,8 @@ var c16PanicExempt = map[string]string{
 }
 
 // c16VersionGate: decoders of tx headers accept only the known header versions.
-func c16VersionGate(c *Ctx) {
-	r := "C16/version-gate"
+func c16VersionGate(c *Ctx, pfx string) {
+	r := pfx + "/version-gate"
 	for _, name := range []string{"embedded/store.(*TxHeader).ReadFrom", "embedded/store.(*txDataReader).readHeader"} {
 		f := c.mustFn(r, name)
 		if f == nil {
@@ -387,5 +395,89 @@ func c16VersionGate(c *Ctx) {
 			return ok && retKind(rt) == "success"
 		}, barrier: known}
 		c.check(q.bypass() == nil, r, name+":unknown-version-rejected", c.pos(f.Pos()), "success requires Version == 0 or Version == 1", "a tx header with an unknown version is accepted (later code panics on it)")
+	}
+}
+
+// c16RecvLoops: a receiver that keeps reading a chunk stream in a loop must not come back to Recv()
+// after the stream reported io.EOF unless it consulted a flag it recorded on that EOF edge: a gRPC
+// stream keeps answering io.EOF, so an iteration that neither returns nor looks at the flag repeats
+// with the same state for ever (the "hang" half of the property, for the one shape that is visible
+// in the code; general termination is not decided).
+func c16RecvLoops(c *Ctx, pfx string) {
+	r := pfx + "/recv-eof-leaves-loop"
+	isRecv := func(in ssa.Instruction) bool {
+		cc := callOf(in)
+		if cc == nil {
+			return false
+		}
+		if _, ok := in.(*ssa.Call); !ok {
+			return false
+		}
+		if cc.IsInvoke() {
+			return cc.Method.Name() == "Recv"
+		}
+		if f := cc.StaticCallee(); f != nil {
+			return f.Name() == "Recv"
+		}
+		return false
+	}
+	isEOFAtom := func(a string) bool { return strings.Contains(a, "global:EOF") }
+	n := 0
+	for _, f := range c.allFns {
+		if len(f.Blocks) == 0 {
+			continue
+		}
+		recvs := sites(f, isRecv)
+		if len(recvs) == 0 {
+			continue
+		}
+		// EOF edges
+		var eofEdges []cfgEdge
+		for _, b := range f.Blocks {
+			for si := range b.Succs {
+				if whenCond(true, isEOFAtom)(b, si) {
+					eofEdges = append(eofEdges, cfgEdge{b, si})
+				}
+			}
+		}
+		if len(eofEdges) == 0 {
+			continue
+		}
+		// flags recorded on an EOF edge: fields stored inside the region the edge dominates
+		flags := map[string]bool{}
+		allInstrs(f, false, func(in ssa.Instruction) {
+			st, ok := in.(*ssa.Store)
+			if !ok {
+				return
+			}
+			fl, _ := fieldOf(st.Addr)
+			if fl == "" {
+				return
+			}
+			for _, e := range eofEdges {
+				if edgeDominates(e.b, e.succ, st.Block()) {
+					flags[fl] = true
+				}
+			}
+		})
+		consult := func(a string) bool {
+			for fl := range flags {
+				if i := strings.LastIndex(fl, "."); i >= 0 && hasFieldSuffix(a, fl[i+1:]) {
+					return true
+				}
+			}
+			return false
+		}
+		q := &pathQ{fn: f, fromEdges: eofEdges, to: isRecv, barrier: anyEdge(whenCond(true, consult), whenCond(false, consult))}
+		n++
+		w := q.bypass()
+		c.check(w == nil, r, fnName(f), c.pos(recvs[0].Pos()), fmt.Sprintf("after io.EOF no path returns to Recv() without a return or a test of the recorded flag %v (%d Recv sites, %d EOF edges)", sortedKeys(flags), len(recvs), len(eofEdges)),
+			"after the stream reported io.EOF the function can call Recv() again without returning and without consulting the end-of-stream flag: on a truncated stream this loop never ends: "+c.witnessStr(w))
+	}
+	c.count("recv_loops", n)
+	for _, must := range []string{"pkg/stream.(*msgReceiver).Read", "pkg/stream.(*msgReceiver).ReadFully"} {
+		if _, ok := c.seen[r+":"+must]; !ok {
+			c.undecided(r, must, "the chunk-stream receiver loop was not found (confirmed by hand on the pinned tree)")
+		}
 	}
 }
